@@ -123,12 +123,17 @@ Theorem C13_legacy_remove_refuted :
 Proof. exact legacy_remove_wrong. Qed.
 
 (** Non-vacuity: the hypotheses are met by a concrete key function and a concrete
-    non-trivial history (two services sharing message 0, re-adding after removal). *)
+    non-trivial history (services sharing message 0, one name added by two instances with
+    different message sets, re-adding after removal, removing a name never added).  The
+    same history is a corpus case of the correspondence check, so the value computed here
+    by [vm_compute] is also compared with the extracted model and with the Rust code. *)
 Example C13_nonvacuous :
-  let ops := [Add 0 [0; 1] 1; Add 1 [0; 2] 2; Remove 0; Add 2 [1] 3; Add 0 [0; 1] 4; Remove 2; Remove 7] in
+  let ops := [Add 0 [0; 1] 1; Add 1 [0; 2] 2; Remove 0; Add 2 [0; 1] 3; Add 2 [1; 2] 4;
+              Add 0 [0; 1] 5; Remove 1; Remove 3] in
   injective_on demo_used demo_key /\ ops_used demo_used ops /\ uniform 0 [0; 1] ops /\
   demo_probe ops [0; 1; 2; 3] [0; 1; 2] =
-    [Some (4, 0); Some (4, 1); None;  Some (2, 0); None; Some (2, 2);  None; None; None;  None; None; None] /\
+    [Some (5, 0); Some (5, 1); None;  None; None; None;  Some (3, 0); Some (4, 1); Some (4, 2);
+     None; None; None] /\
   demo_spec ops [0; 1; 2; 3] [0; 1; 2] = demo_probe ops [0; 1; 2; 3] [0; 1; 2].
 Proof.
   cbv zeta. split; [exact demo_key_inj|]. split.
